@@ -14,6 +14,11 @@ set_option linter.unusedVariables false
 namespace Brood
 open Alloc
 
+/-- A predicate on allocators that re-pointing a live identifier preserves. -/
+structure SPres (P : Alloc → Prop) : Prop where
+  setLoc : ∀ {a a' : Alloc} {id : Ident} {loc : Loc}, AInv a → P a → Live a id →
+    a.setLoc id loc = .ok a' → P a'
+
 /-- A predicate on allocators that the three primitives preserve. -/
 structure APres (P : Alloc → Prop) : Prop where
   allocate : ∀ {a a' : Alloc} {loc : Loc} {id : Ident}, AInv a → P a → a.allocate loc = .ok (a', id) → P a'
@@ -22,6 +27,8 @@ structure APres (P : Alloc → Prop) : Prop where
     a.setLoc id loc = .ok a' → P a'
   /-- reordering the free queue (what `clear` does to the slots it freed) -/
   reorder : ∀ {a : Alloc} {free' : List Nat}, AInv a → P a → free'.Perm a.free → P { a with free := free' }
+
+theorem APres.toS {P : Alloc → Prop} (hp : APres P) : SPres P := ⟨hp.setLoc⟩
 
 theorem APres.batch {P : Alloc → Prop} (hp : APres P) {a a' : Alloc} {h start n : Nat} {ids : List Ident}
     (hi : AInv a) (pa : P a) (e : a.allocateBatch h start n = .ok (a', ids)) : P a' := by
@@ -66,7 +73,7 @@ theorem APres.freeAll {P : Alloc → Prop} (hp : APres P) (ids : List Ident) :
 
 /-- The allocator after a swap-remove fix-up is the result of a `setLoc` on the moved identifier
 (or unchanged). -/
-theorem fixAlloc_pres {P : Alloc → Prop} (hp : APres P) {w : World} (hi : Inv w) {id : Ident} {a : Arch}
+theorem fixAlloc_pres {P : Alloc → Prop} (hp : SPres P) {w : World} (hi : Inv w) {id : Ident} {a : Arch}
     {r : Nat} (la : LiveAt w id a r) {last : Ident} (hlast : a.ids[a.ids.length - 1]? = some last)
     (pa : P w.alloc) :
     P (fixAlloc w.alloc last a.handle r a.ids.length) ∧ AInv (fixAlloc w.alloc last a.handle r a.ids.length) ∧
@@ -91,110 +98,20 @@ theorem fixAlloc_pres {P : Alloc → Prop} (hp : APres P) {w : World} (hi : Inv 
   · simp only [hmid, if_false]
     exact ⟨pa, hi.ainv, ⟨_, la.get⟩⟩
 
-/-- **Every world operation preserves every allocator predicate the three primitives preserve.** -/
-theorem step_apres {P : Alloc → Prop} (hp : APres P) {w w' : World} (hi : Inv w) {op : Op}
-    (pa : P w.alloc) (e : step w op = .ok w') : P w'.alloc := by
+/-- Operations that allocate and free nothing: they only re-point live identifiers. -/
+def Op.movesOnly : Op → Bool
+  | .add _ _ _ | .del _ _ | .write _ _ _ | .reserve _ | .shrink => true
+  | _ => false
+
+/-- Shape changes, writes, `reserve` and `shrink_to_fit` act on the allocator only by re-pointing
+live identifiers. -/
+theorem step_spres {P : Alloc → Prop} (hp : SPres P) {w w' : World} (hi : Inv w) {op : Op}
+    (hop : op.movesOnly = true) (pa : P w.alloc) (e : step w op = .ok w') : P w'.alloc := by
   cases op with
-  | insert shape vals =>
-    obtain ⟨nid, e⟩ := fstOut_ok e
-    unfold World.insert at e
-    cases h1 : w.archForEntity (Mask.ofShape w.n shape) with
-    | ub x => simp [h1] at e
-    | ok p =>
-      obtain ⟨w1, hd⟩ := p
-      have af := archForEntity_inv hi (by simp [Mask.ofShape]) h1
-      simp only [h1] at e
-      cases h2 : w1.getArch hd with
-      | ub x => simp [h2] at e
-      | ok a =>
-        simp only [h2] at e
-        cases h3 : w1.alloc.allocate ⟨hd, a.ids.length⟩ with
-        | ub x => simp [h3] at e
-        | ok q =>
-          obtain ⟨al, nid'⟩ := q
-          simp only [h3] at e
-          cases h4 : a.pushRow (World.canonVals w.n shape vals) nid' with
-          | ub x => simp [h4] at e
-          | ok a' =>
-            simp only [h4, Out.ok.injEq, Prod.mk.injEq] at e
-            obtain ⟨rfl, _⟩ := e
-            show P al
-            rw [af.alloc] at h3
-            exact hp.allocate hi.ainv pa h3
-  | extend shape rows =>
-    obtain ⟨ids, e⟩ := fstOut_ok e
-    unfold World.extend at e
-    cases h1 : w.archForEntity (Mask.ofShape w.n shape) with
-    | ub x => simp [h1] at e
-    | ok p =>
-      obtain ⟨w1, hd⟩ := p
-      have af := archForEntity_inv hi (by simp [Mask.ofShape]) h1
-      simp only [h1] at e
-      cases h2 : w1.getArch hd with
-      | ub x => simp [h2] at e
-      | ok a =>
-        simp only [h2] at e
-        cases h3 : w1.alloc.allocateBatch hd a.ids.length rows.length with
-        | ub x => simp [h3] at e
-        | ok q =>
-          obtain ⟨al, nids⟩ := q
-          simp only [h3] at e
-          cases h4 : World.pushRows w.n shape a nids rows with
-          | ub x => simp [h4] at e
-          | ok a' =>
-            simp only [h4, Out.ok.injEq, Prod.mk.injEq] at e
-            obtain ⟨rfl, _⟩ := e
-            show P al
-            rw [af.alloc] at h3
-            exact hp.batch hi.ainv pa h3
-  | remove id =>
-    obtain ⟨d, e⟩ := fstOut_ok e
-    cases hg : w.alloc.get id with
-    | none => simp [World.remove, hg] at e; obtain ⟨rfl, _⟩ := e; exact pa
-    | some loc =>
-      obtain ⟨a, la, hh⟩ := hi.liveAt hg
-      have hr : loc.row < a.ids.length := (List.getElem?_eq_some_iff.mp la.row).1
-      have hne0 : a.ids.length - 1 < a.ids.length := by omega
-      have hlast : a.ids[a.ids.length - 1]? = some a.ids[a.ids.length - 1] := List.getElem?_eq_getElem hne0
-      rw [remove_eq hi la hlast] at e
-      simp only [Out.ok.injEq, Prod.mk.injEq] at e
-      obtain ⟨rfl, _⟩ := e
-      show P (removeAlloc w.alloc id a.ids[a.ids.length - 1] a.handle loc.row a.ids.length)
-      obtain ⟨pf, hif, hlf⟩ := fixAlloc_pres hp hi la hlast pa
-      obtain ⟨l0, hl0⟩ := hlf
-      obtain ⟨s0, hs0, hsg, _⟩ := get_eq_some.mp hl0
-      have hrel : (fixAlloc w.alloc a.ids[a.ids.length - 1] a.handle loc.row a.ids.length).release id =
-          .ok (removeAlloc w.alloc id a.ids[a.ids.length - 1] a.handle loc.row a.ids.length) := by
-        rw [removeAlloc_eq_fix]
-        unfold Alloc.release
-        rw [hs0]
-        simp only [hsg]
-        rfl
-      exact hp.release hif pf ⟨l0, hl0⟩ hrel
-  | clear order =>
-    obtain ⟨d, e⟩ := fstOut_ok e
-    obtain ⟨w0, e0, rfl⟩ := clear_eq e
-    obtain ⟨w0', d', hraw, hi0⟩ := clearRaw_inv hi order
-    rw [hraw] at e0
-    simp only [Out.ok.injEq, Prod.mk.injEq] at e0
-    obtain ⟨rfl, rfl⟩ := e0
-    have pal : P w0'.alloc := by
-      unfold World.clearRaw at hraw
-      simp only [] at hraw
-      cases hfa : World.freeAll w.alloc ((w.visitOrder order).flatMap (·.ids)) with
-      | ub x => simp [hfa] at hraw
-      | ok al =>
-        simp only [hfa, Out.ok.injEq, Prod.mk.injEq] at hraw
-        obtain ⟨rfl, _⟩ := hraw
-        show P al
-        have hperm : ((w.visitOrder order).flatMap (·.ids)).Perm w.stored :=
-          List.Perm.flatMap_right _ (List.mergeSort_perm _ _)
-        refine hp.freeAll _ hi.ainv pa ?_ ?_ hfa
-        · intro y hy
-          obtain ⟨a, ha, r, hr⟩ := mem_stored (hperm.mem_iff.mp hy)
-          exact ⟨_, hi.row_live ha hr⟩
-        · exact (hperm.pairwise_iff (fun h => fun e' => h e'.symm)).mpr hi.stored_pairwise
-    exact hp.reorder hi0.ainv pal (sortFreeFrom_perm _ _)
+  | insert shape vals => simp [Op.movesOnly] at hop
+  | extend shape rows => simp [Op.movesOnly] at hop
+  | remove id => simp [Op.movesOnly] at hop
+  | clear order => simp [Op.movesOnly] at hop
   | add id c v =>
     obtain ⟨d, e⟩ := fstOut_ok e
     unfold World.entryAdd at e
@@ -334,6 +251,116 @@ theorem step_apres {P : Alloc → Prop} (hp : APres P) {w w' : World} (hi : Inv 
       subst e
       rw [af.alloc]; exact pa
   | shrink => simp [step] at e; subst e; exact pa
+
+/-- **Every world operation preserves every allocator predicate the three primitives preserve.** -/
+theorem step_apres {P : Alloc → Prop} (hp : APres P) {w w' : World} (hi : Inv w) {op : Op}
+    (pa : P w.alloc) (e : step w op = .ok w') : P w'.alloc := by
+  cases op with
+  | insert shape vals =>
+    obtain ⟨nid, e⟩ := fstOut_ok e
+    unfold World.insert at e
+    cases h1 : w.archForEntity (Mask.ofShape w.n shape) with
+    | ub x => simp [h1] at e
+    | ok p =>
+      obtain ⟨w1, hd⟩ := p
+      have af := archForEntity_inv hi (by simp [Mask.ofShape]) h1
+      simp only [h1] at e
+      cases h2 : w1.getArch hd with
+      | ub x => simp [h2] at e
+      | ok a =>
+        simp only [h2] at e
+        cases h3 : w1.alloc.allocate ⟨hd, a.ids.length⟩ with
+        | ub x => simp [h3] at e
+        | ok q =>
+          obtain ⟨al, nid'⟩ := q
+          simp only [h3] at e
+          cases h4 : a.pushRow (World.canonVals w.n shape vals) nid' with
+          | ub x => simp [h4] at e
+          | ok a' =>
+            simp only [h4, Out.ok.injEq, Prod.mk.injEq] at e
+            obtain ⟨rfl, _⟩ := e
+            show P al
+            rw [af.alloc] at h3
+            exact hp.allocate hi.ainv pa h3
+  | extend shape rows =>
+    obtain ⟨ids, e⟩ := fstOut_ok e
+    unfold World.extend at e
+    cases h1 : w.archForEntity (Mask.ofShape w.n shape) with
+    | ub x => simp [h1] at e
+    | ok p =>
+      obtain ⟨w1, hd⟩ := p
+      have af := archForEntity_inv hi (by simp [Mask.ofShape]) h1
+      simp only [h1] at e
+      cases h2 : w1.getArch hd with
+      | ub x => simp [h2] at e
+      | ok a =>
+        simp only [h2] at e
+        cases h3 : w1.alloc.allocateBatch hd a.ids.length rows.length with
+        | ub x => simp [h3] at e
+        | ok q =>
+          obtain ⟨al, nids⟩ := q
+          simp only [h3] at e
+          cases h4 : World.pushRows w.n shape a nids rows with
+          | ub x => simp [h4] at e
+          | ok a' =>
+            simp only [h4, Out.ok.injEq, Prod.mk.injEq] at e
+            obtain ⟨rfl, _⟩ := e
+            show P al
+            rw [af.alloc] at h3
+            exact hp.batch hi.ainv pa h3
+  | remove id =>
+    obtain ⟨d, e⟩ := fstOut_ok e
+    cases hg : w.alloc.get id with
+    | none => simp [World.remove, hg] at e; obtain ⟨rfl, _⟩ := e; exact pa
+    | some loc =>
+      obtain ⟨a, la, hh⟩ := hi.liveAt hg
+      have hr : loc.row < a.ids.length := (List.getElem?_eq_some_iff.mp la.row).1
+      have hne0 : a.ids.length - 1 < a.ids.length := by omega
+      have hlast : a.ids[a.ids.length - 1]? = some a.ids[a.ids.length - 1] := List.getElem?_eq_getElem hne0
+      rw [remove_eq hi la hlast] at e
+      simp only [Out.ok.injEq, Prod.mk.injEq] at e
+      obtain ⟨rfl, _⟩ := e
+      show P (removeAlloc w.alloc id a.ids[a.ids.length - 1] a.handle loc.row a.ids.length)
+      obtain ⟨pf, hif, hlf⟩ := fixAlloc_pres hp.toS hi la hlast pa
+      obtain ⟨l0, hl0⟩ := hlf
+      obtain ⟨s0, hs0, hsg, _⟩ := get_eq_some.mp hl0
+      have hrel : (fixAlloc w.alloc a.ids[a.ids.length - 1] a.handle loc.row a.ids.length).release id =
+          .ok (removeAlloc w.alloc id a.ids[a.ids.length - 1] a.handle loc.row a.ids.length) := by
+        rw [removeAlloc_eq_fix]
+        unfold Alloc.release
+        rw [hs0]
+        simp only [hsg]
+        rfl
+      exact hp.release hif pf ⟨l0, hl0⟩ hrel
+  | clear order =>
+    obtain ⟨d, e⟩ := fstOut_ok e
+    obtain ⟨w0, e0, rfl⟩ := clear_eq e
+    obtain ⟨w0', d', hraw, hi0⟩ := clearRaw_inv hi order
+    rw [hraw] at e0
+    simp only [Out.ok.injEq, Prod.mk.injEq] at e0
+    obtain ⟨rfl, rfl⟩ := e0
+    have pal : P w0'.alloc := by
+      unfold World.clearRaw at hraw
+      simp only [] at hraw
+      cases hfa : World.freeAll w.alloc ((w.visitOrder order).flatMap (·.ids)) with
+      | ub x => simp [hfa] at hraw
+      | ok al =>
+        simp only [hfa, Out.ok.injEq, Prod.mk.injEq] at hraw
+        obtain ⟨rfl, _⟩ := hraw
+        show P al
+        have hperm : ((w.visitOrder order).flatMap (·.ids)).Perm w.stored :=
+          List.Perm.flatMap_right _ (List.mergeSort_perm _ _)
+        refine hp.freeAll _ hi.ainv pa ?_ ?_ hfa
+        · intro y hy
+          obtain ⟨a, ha, r, hr⟩ := mem_stored (hperm.mem_iff.mp hy)
+          exact ⟨_, hi.row_live ha hr⟩
+        · exact (hperm.pairwise_iff (fun h => fun e' => h e'.symm)).mpr hi.stored_pairwise
+    exact hp.reorder hi0.ainv pal (sortFreeFrom_perm _ _)
+  | add id c v => exact step_spres hp.toS hi (by simp [Op.movesOnly]) pa e
+  | del id c => exact step_spres hp.toS hi (by simp [Op.movesOnly]) pa e
+  | write id c v => exact step_spres hp.toS hi (by simp [Op.movesOnly]) pa e
+  | reserve shape => exact step_spres hp.toS hi (by simp [Op.movesOnly]) pa e
+  | shrink => exact step_spres hp.toS hi (by simp [Op.movesOnly]) pa e
 
 /-- … and so does every history. -/
 theorem run_apres {P : Alloc → Prop} (hp : APres P) (ops : List Op) :
